@@ -136,7 +136,8 @@ def main(ctx, replay=None):
             pmin, dp = 0.0, 0.0
             if mode == "pressure":
                 pmax_ok = float(sc.pressure(sc.vol.min()) * G) * 0.8
-                pmin = round(float(rng.uniform(0.0, 5.0)), 3)
+                # (the fitted range reaches into tension: a pressure grid may start below zero)
+                pmin = round(float(rng.uniform(0.0, 5.0)), 3) if rng.random() < 0.6 else round(float(rng.uniform(-2.5, -0.2)), 3)
                 dp = round((pmax_ok - pmin) / (ntv - 1), 4)
                 if sample > 1:
                     # make the floating-point quotient delta_p_sample / delta_p fall below the integer in every other case
